@@ -579,6 +579,19 @@ def decide(prop, tier, seed, args):
     }
     if bounded is not None:
         ev["coverage"]["bounded"] = bounded
+    # the level recorded here is the category claimed in MANIFEST.json (units/PROPS.toml); `other` = a proved layer plus
+    # bounded engines that carry most of the property: say so in coverage.explanation, with this run's own numbers
+    ev["level"] = pinfo.get("category", "proof")
+    if not ev["coverage"]["explanation"]:
+        engs = (bounded or {}).get("engines", []) if isinstance(bounded, dict) else []
+        ev["coverage"]["explanation"] = (
+            f"{n_dis} of {n_ob} obligations discharged deductively (Verus) for the layer stated in MANIFEST.level_claimed.text, over "
+            f"{len(fns)} functions of /repo under contract; "
+            + ("the rest of the property is explored by bounded engines that are never counted as proved: "
+               + "; ".join(f"{e.get('unit')} ({e.get('evaluations')} evaluations, {e.get('distinct_nontrivial')} non-trivial)" for e in engs)
+               if engs else "no bounded engine is attached to this property")
+            + ". What no contract reaches is listed under assumptions (NOT COVERED)."
+        )
     if bounded_only:
         ev["level"] = "exploration"
         eng = (bounded or {}).get("engines", [{}])
